@@ -470,6 +470,12 @@ func (g *gen) build(n int) {
 		g.emit("CLONE 0 1")
 		g.emit("EQUAL 0 1")
 		g.emit("EQUAL 1 0")
+		if g.r.chance(1, 2) { // a decoded message whose list the caller shortens, then Encode and one more attribute:
+			// struct and wire must agree afterwards (the kept attributes move down in the buffer)
+			g.emit("DROPATTR 1 %d", g.r.intn(4))
+			g.emit("ENCODE 1")
+			g.emit("ADD 1 %d %s", g.r.pick(knownTypes), showHex(g.r.bytes(g.r.intn(12))))
+		}
 		g.emit("ENCODE 1")
 		// copies handed out (C08): clone / MarshalBinary / GobEncode, then the source is scribbled over
 		g.emit("CLONEMUT 0 2")
